@@ -211,7 +211,8 @@ fn gen_actor(p: &Profile, rng: &mut Rng) -> Case {
     let timeout = if !stream && rng.chance(p.timeout, 10) { Some(2 + rng.below(6) as u64) } else { None };
     let fail = timeout.is_some() && rng.chance(1, 3);
     let owning = rng.chance(p.owning, 10);
-    let mut g = G { rng, p, next_h: 1, next_m: 0, next_t: 0, next_item: 0, stream, restartable: strat != Strat::Non };
+    // restart requests are also sent to non-restartable plain spawns (they must ignore them)
+    let mut g = G { rng, p, next_h: 1, next_m: 0, next_t: 0, next_item: 0, stream, restartable: !stream };
     // lifecycle behaviour
     let mut beh = Behaviour::default();
     let mut st0 = vec![];
